@@ -159,37 +159,47 @@ class InProtocolBase(ProtocolMixin):
             'usec': self._datetime_from_usec,
         }
 
+    @staticmethod
+    def _timestamp_number(value, kind):
+        # the protocols that carry text carry the number as text.
+        if isinstance(value, six.string_types):
+            return kind(value)
+        return value
+
     def _datetime_from_sec(self, cls, value):
         try:
-            return datetime.fromtimestamp(value)
+            return datetime.fromtimestamp(self._timestamp_number(value, int))
         except TypeError:
             logger.error("Invalid value %r", value)
             raise
 
     def _datetime_from_sec_float(self, cls, value):
         try:
-            return datetime.fromtimestamp(value)
+            return datetime.fromtimestamp(self._timestamp_number(value, float))
         except TypeError:
             logger.error("Invalid value %r", value)
             raise
 
     def _datetime_from_msec(self, cls, value):
         try:
-            return datetime.fromtimestamp(value // 1000)
+            return datetime.fromtimestamp(
+                                  self._timestamp_number(value, int) // 1000)
         except TypeError:
             logger.error("Invalid value %r", value)
             raise
 
     def _datetime_from_msec_float(self, cls, value):
         try:
-            return datetime.fromtimestamp(value / 1000)
+            return datetime.fromtimestamp(
+                                 self._timestamp_number(value, float) / 1000)
         except TypeError:
             logger.error("Invalid value %r", value)
             raise
 
     def _datetime_from_usec(self, cls, value):
         try:
-            return datetime.fromtimestamp(value / 1e6)
+            return datetime.fromtimestamp(
+                                    self._timestamp_number(value, int) / 1e6)
         except TypeError:
             logger.error("Invalid value %r", value)
             raise
@@ -542,16 +552,25 @@ class InProtocolBase(ProtocolMixin):
 
         raise ValidationError(string)
 
-    def datetime_from_unicode(self, cls, string):
+    def _datetime_from_wire(self, cls, value):
         serialize_as = self.get_cls_attrs(cls).serialize_as
-        return self._datetime_dsmap[serialize_as](cls, string)
+        try:
+            return self._datetime_dsmap[serialize_as](cls, value)
+
+        except (TypeError, ValueError, OverflowError, OSError) as e:
+            # not a number, not in the custom format, not a point in time that
+            # datetime can hold (before or after moving it to a time zone)
+            raise ValidationError(value,
+                                         "%%r: %s" % repr(e).replace("%", "%%"))
+
+    def datetime_from_unicode(self, cls, string):
+        return self._datetime_from_wire(cls, string)
 
     def datetime_from_bytes(self, cls, string):
         if isinstance(string, six.binary_type):
             string = string.decode(self.default_string_encoding)
 
-        serialize_as = self.get_cls_attrs(cls).serialize_as
-        return self._datetime_dsmap[serialize_as](cls, string)
+        return self._datetime_from_wire(cls, string)
 
     def date_from_bytes(self, cls, string):
         if isinstance(string, six.binary_type):
